@@ -57,7 +57,7 @@ pub fn case() -> impl Strategy<Value = Case> {
         scn_with(2, 5, 1),
         proptest::collection::vec(proptest::collection::vec(term(), 1..=6), 1..=4),
         proptest::collection::vec((any::<u8>(), any::<u8>()), 1..=4),
-        prop_oneof![1 => Just(0u8), 2 => Just(1u8), 2 => Just(2u8), 2 => Just(3u8), 2 => Just(4u8), 2 => Just(5u8)],
+        prop_oneof![1 => Just(0u8), 2 => Just(1u8), 2 => Just(2u8), 2 => Just(3u8), 2 => Just(4u8), 3 => Just(5u8)],
         any::<u64>(),
     )
         .prop_map(|(scn, lcs, queries, mode, sel)| Case { scn, lcs, queries, mode, sel })
@@ -160,6 +160,21 @@ pub fn check_trait<S: Scheme>(c: &Case, ctx: &mut CaseCtx) -> Result<(), Failure
     let tier = current_tier();
     let mut scn = c.scn.clone();
     let policy = c.mode == 5 && S::HAS_BOUNDS;
+    if policy {
+        // the policy group is about degree-bounded polynomials: make sure the key enforces bounds, most
+        // polynomials carry one, and half of the sessions are non-hiding (the twin-proof attack needs that)
+        if scn.key.bounds.is_none() {
+            scn.key.bounds = Some(vec![(c.sel >> 3) as u16, (c.sel >> 19) as u16, (c.sel >> 35) as u16]);
+        }
+        for (k, p) in scn.polys.iter_mut().enumerate() {
+            if p.bound == 0 && (c.sel >> (40 + k)) & 1 == 0 {
+                p.bound = 1 + ((c.sel >> (8 * k)) & 0xfffe) as u16;
+            }
+            if (c.sel >> 50) & 1 == 0 {
+                p.hiding = 0;
+            }
+        }
+    }
     if !policy {
         // combinations of degree-bounded polynomials are refused by design (policy group); strip the bounds here
         for p in scn.polys.iter_mut() {
@@ -481,7 +496,9 @@ fn check_policy<S: Scheme>(sess: &Session<S>, c: &Case, ctx: &mut CaseCtx) -> Re
         let v = sess.true_value(pb, &z);
         if let Some(d) = cands.first() {
             let admissible = match S::NAME {
-                "sonic" => true,
+                // Sonic: C made under d1 and presented under d > d1 is a valid bounded commitment to x^(d-d1)*p;
+                // with the honest proof it verifies exactly when p(z) = 0 (then the claim is not false)
+                "sonic" => !v.is_zero(),
                 "ipa" => {
                     // z^(d-d1) != 1, z != 0, p(z) != 0 (point identity)
                     !v.is_zero() && {
@@ -507,8 +524,74 @@ fn check_policy<S: Scheme>(sess: &Session<S>, c: &Case, ctx: &mut CaseCtx) -> Re
         }
         let dummy: BatchLCProof<S::F, BatchProof<S>> = BatchLCProof { proof: Vec::<Proof<S>>::new().into(), evals: None };
         let r = check_comb::<S>(sess, &lcs, sess.verifier_comms(), &qs, &evals, &dummy);
-        ctx.check(!accepted(&r), sig(P, S::NAME, "check_combinations", "bound_dropping_combination_accepted"), || format!("{name}: {}", r.describe()))
+        ctx.check(!accepted(&r), sig(P, S::NAME, "check_combinations", "bound_dropping_combination_accepted"), || format!("{name}: {}", r.describe()))?;
+        // A real proof for the refused combination: the prover opens it over *unbounded twins* - polynomials
+        // without a degree bound whose plain commitment is the group element the verifier holds for the
+        // bounded original (Marlin / IPA: the polynomial itself; Sonic: x^(max_degree - d) * p, whose
+        // commitment is the bounded commitment of p) - and the verifier, holding the honest bounded
+        // commitments, must still refuse. Non-hiding sessions only (commitments are then deterministic).
+        if sess.meta.iter().any(|m| m.hiding.is_some()) {
+            return Ok(());
+        }
+        let mut twins = Vec::new();
+        for i in 0..sess.n() {
+            let tw = match (S::NAME, sess.meta[i].bound) {
+                ("sonic", Some(d)) => match sonic_twin::<S>(sess.polys[i].polynomial(), sess.keys.info.max_degree - d, sess.keys.info.supported) {
+                    Some(t) => t,
+                    None => {
+                        ctx.label("policy:no_unbounded_twin_within_supported_degree");
+                        return Ok(());
+                    }
+                },
+                _ => sess.polys[i].polynomial().clone(),
+            };
+            twins.push(ark_poly_commit::LabeledPolynomial::new(sess.polys[i].label().clone(), tw, None, None));
+        }
+        let Out::Ok((tc, ts)) = guard(|| S::PC::commit(&sess.keys.ck, twins.iter(), None)) else {
+            ctx.label("policy:twin_commit_refused");
+            return Ok(());
+        };
+        let mut sp = sess.sponge();
+        let Out::Ok(tproof) = guard(|| S::PC::open_combinations(&sess.keys.ck, &lcs, twins.iter(), tc.iter(), &qs, &mut sp, ts.iter(), None)) else {
+            ctx.label("policy:twin_open_refused");
+            return Ok(());
+        };
+        // the value the twin proof proves
+        let mut tval = S::F::zero();
+        for (cf, t) in &terms {
+            match t {
+                LCTerm::One => tval += *cf,
+                LCTerm::PolyLabel(l) => {
+                    let i = (0..sess.n()).find(|i| sess.polys[*i].label() == l).unwrap();
+                    tval += *cf * twins[i].polynomial().evaluate(&z);
+                }
+            }
+        }
+        let mut tevals = BTreeMap::new();
+        tevals.insert(("lc0".to_string(), z.clone()), tval);
+        ctx.label("policy:proof_over_unbounded_twins_presented");
+        let r = check_comb::<S>(sess, &lcs, sess.verifier_comms(), &qs, &tevals, &tproof);
+        ctx.check(!accepted(&r), sig(P, S::NAME, "check_combinations", "bound_dropping_combination_accepted"), || {
+            format!("{name}: a proof made over unbounded twins of the polynomials was accepted against the honest degree-bounded commitments (claimed value {} the true one)", if tval == value { "equals" } else { "differs from" })
+        })
     }
+}
+
+/// Sonic: x^shift * p as an unbounded polynomial (None if it exceeds the supported degree)
+fn sonic_twin<S: Scheme>(p: &S::P, shift: usize, supported: usize) -> Option<S::P> {
+    use ark_poly::DenseUVPolynomial;
+    let any: &dyn std::any::Any = p;
+    let up = any.downcast_ref::<UniPoly>()?;
+    if up.coeffs.is_empty() {
+        return Some(p.clone());
+    }
+    if up.coeffs.len() - 1 + shift > supported {
+        return None;
+    }
+    let mut c = vec![Fr::zero(); shift];
+    c.extend_from_slice(&up.coeffs);
+    let tw: Box<dyn std::any::Any> = Box::new(UniPoly::from_coefficients_vec(c));
+    tw.downcast::<S::P>().ok().map(|b| *b)
 }
 
 /// univariate schemes only (the policy group runs for Marlin, Sonic, IPA): the point is a field element
@@ -545,7 +628,7 @@ pub fn spec() -> PropertySpec {
     add!(Brakedown, 200, 1600, 4);
     PropertySpec {
         id: "C06",
-        rule: "2-5 committed polynomials (bounds stripped except in the policy group), 1-4 linear combinations of 1-6 terms (coefficient in {0,1,-1,random}; term = polynomial label, possibly repeated, or the constant One; first term is a polynomial), LC query sets over 1-4 point labels mapped to 1-3 point values (so labels share values and LCs share labels). Oracle: open_combinations is Ok and check_combinations accepts the true LC values (computed from ark-poly evaluations); then one perturbation - claimed LC value, a verifier-side coefficient (of a polynomial that does not vanish at the queried point), a verifier-side constant, or (schemes that transmit evaluations) two transmitted evaluations changed so that the LC sum is preserved - is not accepted. Policy group (Marlin, Sonic, IPA): [1*p_b] opens, verifies and still enforces the bound (mislabelled commitment rejected at an admissible point); [c*p_b] with c != 1, [p_b, q] and [p_b, c*One] are refused by open_combinations (Err or abort) and not accepted by check_combinations. Non-trivial: an LC with a One term, a zero coefficient, a repeated label, or two point labels with one value; policy cases always.",
+        rule: "2-5 committed polynomials (bounds stripped except in the policy group), 1-4 linear combinations of 1-6 terms (coefficient in {0,1,-1,random}; term = polynomial label, possibly repeated, or the constant One; first term is a polynomial), LC query sets over 1-4 point labels mapped to 1-3 point values (so labels share values and LCs share labels). Oracle: open_combinations is Ok and check_combinations accepts the true LC values (computed from ark-poly evaluations); then one perturbation - claimed LC value, a verifier-side coefficient (of a polynomial that does not vanish at the queried point), a verifier-side constant, or (schemes that transmit evaluations) two transmitted evaluations changed so that the LC sum is preserved - is not accepted. Policy group (Marlin, Sonic, IPA): [1*p_b] opens, verifies and still enforces the bound (mislabelled commitment rejected at an admissible point); [c*p_b] with c != 1, [p_b, q] and [p_b, c*One] are refused by open_combinations (Err or abort) and not accepted by check_combinations - neither with an empty proof nor with a real proof that the prover made over unbounded twins of the polynomials (the polynomial itself for Marlin / IPA, x^(max-d)*p for Sonic, whose plain commitment is the bounded commitment). Non-trivial: an LC with a One term, a zero coefficient, a repeated label, or two point labels with one value; policy cases always.",
         assumptions: vec!["LC labels are distinct from polynomial labels; one point per point label"],
         units,
         watchdog_s: (1800, 7200),
